@@ -33,3 +33,19 @@ Theorem C16_print_injective : forall p q,
   tokens_program p = tokens_program q -> prog_wf p = true -> prog_wf q = true -> erase_program p = erase_program q.
 Proof. exact tokens_injective. Qed.
 Print Assumptions C16_print_injective.
+
+(* ---- character level (Text/ProgLex.v: a lexer for the token language of minimal.pest; tied to pest differentially) ---- *)
+Require Import SV.Text.ProgLex SV.Proofs.ProgLexCorrect.
+
+(* the printer never writes two tokens next to each other that would be read as one or split differently *)
+Theorem C16_printer_never_fuses_tokens : forall p, sep_ok (lay_program p) = true.
+Proof. exact lay_program_sep_ok_all. Qed.
+Print Assumptions C16_printer_never_fuses_tokens.
+
+(* the printed TEXT, read character by character, gives back the same tree: for every tree the parser can produce
+   (prog_wf) whose names are spelled as identifiers that are not reserved words of their role (prog_names_ok) *)
+Theorem C16_print_parse_text : forall ns intern p,
+  prog_wf p = true -> prog_names_ok ns intern p = true ->
+  parse_text intern (print_program ns p) = Some (erase_program p).
+Proof. exact print_parse_text. Qed.
+Print Assumptions C16_print_parse_text.
